@@ -79,8 +79,9 @@ pub fn plan_strategy() -> BoxedStrategy<Plan> {
         proptest::collection::vec((any::<u16>(), junk_name, vals::bytes(60)), 0..3),
         any::<bool>(),
         proptest::collection::vec(extra, 0..3),
+        prop_oneof![2 => Just(0u8), 3 => 0u8..8],
     )
-        .prop_map(|(comp, order_keys, id_keys, sparse_ids, meta, junk, narrow, mut extra)| {
+        .prop_map(|(comp, order_keys, id_keys, sparse_ids, meta, junk, narrow, mut extra, sstr_mode)| {
             // extra property names must be distinct per class: keep distinct names overall
             extra.sort_by(|a, b| a.name.cmp(&b.name));
             extra.dedup_by(|a, b| a.name == b.name);
@@ -97,6 +98,7 @@ pub fn plan_strategy() -> BoxedStrategy<Plan> {
                 junk,
                 narrow,
                 extra,
+                sstr_mode,
             }
         })
         .boxed()
@@ -163,7 +165,7 @@ pub fn run(ctx: &Ctx) -> PropertyReport {
         "exploration",
         "logical DOM spec + encoding plan (per-chunk compression none/LZ4/Zstd mixed, INST / PROP chunk order, arbitrary class ids and \
          sparse unsorted referents, PRNT entry order (which defines sibling order), META, unknown chunk names with random payloads, \
-         service-format INST chunks, Int32-for-Int64 and Float32-for-Float64 columns, truncated and unknown-type PROP chunks for extra names), \
+         service-format INST chunks, SSTR tables with zero hash fields / duplicate and unreferenced entries / zero entries, Int32-for-Int64 and Float32-for-Float64 columns, truncated and unknown-type PROP chunks for extra names), \
          rendered by an independent encoder written from docs/binary.md and decoded by rbx_binary; decoded DOM must equal the logical DOM. \
          Non-trivial = the plan departs from rbx_binary's own layout in >= 2 degrees of freedom.",
     );
@@ -189,6 +191,9 @@ pub fn run(ctx: &Ctx) -> PropertyReport {
             "truncated_prop_chunk",
             "unknown_type_prop_chunk",
             "service_format_inst",
+            "sstr_duplicates_and_unreferenced",
+            "sstr_hashes_zero",
+            "sstr_chunk_of_zero_entries",
         ] {
             let rare = matches!(l, "int32_for_int64" | "float32_for_float64");
             r.floor(l, if rare { cases / 2000 } else { cases / 400 });
